@@ -182,8 +182,10 @@ def run(ctx):
                 ok, msg = False, f"{type(e).__name__}: {e}"
             ctx.ob("C17.awkward-count", f"_reduce_count_nonzero({cname})", ok, msg, None, "src/vector/backends/awkward.py")
     fn = facts("src/vector/backends/awkward.py", ctx.repo).functions.get("_reduce_count")
-    body = [unparse(s) for s in fn.body if not (isinstance(s, ast.Expr) and isinstance(s.value, ast.Constant))] if fn else []
-    ctx.ob("C17.awkward-count", "_reduce_count", body == ["first_field = array[array.fields[0]]", "return ak.count(first_field, axis=1)"], f"body is {body}", None, "src/vector/backends/awkward.py")
+    from ..loader import return_text as _rt
+
+    body = _rt(fn)  # locals inlined: any spelling of "count the first field over axis 1"
+    ctx.ob("C17.awkward-count", "_reduce_count", body == "return ak.count(array[array.fields[0]], axis=1)", f"body reads `{body}`; expected ak.count(array[array.fields[0]], axis=1)", None, "src/vector/backends/awkward.py")
     tab = extract_awkward_behaviors(ctx.repo)
     for red, impl in (("ak.sum", "_reduce_sum"), ("ak.count", "_reduce_count"), ("ak.count_nonzero", "_reduce_count_nonzero")):
         for name in AWK_NAMES:
